@@ -216,7 +216,10 @@ def crcName : Bytes := [99, 114, 99, 51, 50]
 def crcPrompt : Bytes := [61, 62, 32]
 
 def isCrc (args : List Bytes) (s : St) : Bool :=
-  args.head? == some crcName && s.prompt == some (.lit crcPrompt)
+  args.head? == some crcName &&
+    (match s.prompt with
+     | some (.lit p) => p == crcPrompt      -- a compiled pattern never equals a string
+     | _ => false)
 
 /-- `if out.endswith("\r"): out = out[:-1]` -/
 def stripCr (s : List Char) : List Char :=
@@ -236,27 +239,32 @@ def fetchRetcode (ss : Sess) : URes Nat :=
       | some n => (.ok n, ss)
       | none => (.error .invalidRetcode, ss)
 
-/-- `UBootShell.exec(*args)` for `str` arguments; stream id 0 is the log event -/
+/-- the three nested blocks of `exec` that collect the command's output:
+    `with self.ch.with_prompt(override): with self.ch.with_stream(ev, show_prompt=False):
+         out = self.ch.read_until_prompt(prompt=override)`
+    (stream id 0 is the log event) -/
+def readOutput (ovr : Option Pat) (s : St) : Res (Bytes × Bytes) :=
+  let prev := s.prompt
+  let st := match ovr with
+    | some p => { s with prompt := some (anchor p) }
+    | none => s
+  let se := streamEnter 0 false st
+  let r := readUntilPrompt ovr none se.2
+  let st := streamExit 0 se.1 r.2
+  let st := match ovr with
+    | some _ => { st with prompt := prev }
+    | none => st
+  (r.1, st)
+
+/-- `UBootShell.exec(*args)` for `str` arguments -/
 def exec (args : List Bytes) (ss : Sess) : URes (Nat × List Char) :=
   let cmd := Hush.escape args
   let ovr : Option Pat := if isCrc args ss.st then some (.lit Params.ubootCrcOverride) else none
   match sendlineRB cmd ss with
   | (.error e, ss) => (.error (.chan e), ss)
   | (.ok _, ss) =>
-    -- with self.ch.with_prompt(override_prompt):
-    let prev := ss.st.prompt
-    let st := match ovr with
-      | some p => { ss.st with prompt := some (anchor p) }
-      | none => ss.st
-    --   with self.ch.with_stream(ev, show_prompt=False):
-    let se := streamEnter 0 false st
-    --     out = self.ch.read_until_prompt(prompt=override_prompt)
-    let r := readUntilPrompt ovr none se.2
-    let st := streamExit 0 se.1 r.2
-    let st := match ovr with
-      | some _ => { st with prompt := prev }
-      | none => st
-    let ss := { ss with st := st }
+    let r := readOutput ovr ss.st
+    let ss := { ss with st := r.2 }
     match r.1 with
     | .error e => (.error (.chan e), ss)
     | .ok (b, _) =>
